@@ -254,6 +254,9 @@ Definition wf_check (g : graph) : bool :=
 Record layout := mkLayout { lnx : nat; lny : nat; lnz : nat; lpx : bool; lpy : bool; lpz : bool }.
 
 Section MakeGraph.
+  (* FX = true: the code with the fix of defect D2 (Task::set_extra_dependency stores nullptr when the extra dependency is
+     the lock already held in _dependency[0]); FX = false: the pinned commit, where the pointer is stored unconditionally *)
+  Variable FX : bool.
   Variable Y : layout.
   Let nx := lnx Y.  Let ny := lny Y.  Let nz := lnz Y.
 
@@ -285,8 +288,9 @@ Section MakeGraph.
   Definition bnd_task (k : tkind) (i d : nat) (p0 : nat) : task := mkTask k i None (Some d) (Some i) None [] p0.
   (* "avoid dining philosophers by sorting the dependencies on subgrid index" *)
   Definition pair_task (k : tkind) (i j d : nat) (p0 : nat) : task :=
-    if i <? j then mkTask k i (Some j) (Some d) (Some i) (Some j) [] p0
-    else mkTask k i (Some j) (Some d) (Some j) (Some i) [] p0.
+    let a := if i <? j then i else j in        (* set_dependency *)
+    let b := if i <? j then j else i in        (* set_extra_dependency *)
+    mkTask k i (Some j) (Some d) (Some a) (if FX && (b =? a) then None else Some b) [] p0.
   (* positive direction: boundary task if outside, else pair task with the neighbour *)
   Definition pos_slot (kb kn : tkind) (i d : nat) (pb pn : nat) : option task :=
     match nb i d with
@@ -368,7 +372,7 @@ Section MakeGraph.
   Definition make_slots : list (list (option nat)) := snd make_table.
 End MakeGraph.
 
-(* a periodic axis with exactly one subgrid: the subgrid is its own neighbour *)
+(* a periodic axis with exactly one subgrid: the subgrid is its own neighbour (the layouts hit by defect D2) *)
 Definition self_neighbour (Y : layout) : bool :=
   (lpx Y && (lnx Y =? 1)) || (lpy Y && (lny Y =? 1)) || (lpz Y && (lnz Y =? 1)).
 
@@ -378,5 +382,5 @@ Definition layouts_upto (b : nat) : list layout :=
   flat_map (fun x => flat_map (fun y => flat_map (fun z =>
     flat_map (fun px => flat_map (fun py => map (fun pz => mkLayout x y z px py pz) bools) bools) bools)
     (seq 1 b)) (seq 1 b)) (seq 1 b).
-Definition check_layout (Y : layout) : bool := self_neighbour Y || wf_check (make_graph Y).
+Definition check_layout (Y : layout) : bool := wf_check (make_graph true Y).
 Definition check_upto (b : nat) : bool := forallb check_layout (layouts_upto b).
